@@ -30,7 +30,7 @@ EXPLANATION = (
     "the emitted code of each template; register reads / writes derived from the VM; shared with C15.R8); (R9) in the parser every "
     "statement list comes from a repetition combinator: a list built from a fixed number of statements "
     "(array literal, once) is tabled with the reason nothing can follow it, otherwise the rest of a "
-    "colon-separated single-line body falls out of the construct.")
+    "colon-separated single-line body falls out of the construct; (R10) the FOR increment adds the step as it was evaluated: followed symbolically through the register moves of the FOR template, the step reaches the Plus of the increment without passing through Cast (the equivalent WHILE converts the sum once, not the step and then the sum).")
 NOT_DECIDED = [
     "the listed rewrite equivalences themselves (FOR = WHILE, SELECT = IF chain ...): relational "
     "properties of run-time behaviour",
@@ -476,6 +476,142 @@ def _tmpl(t):
     return "<%s>" % t[0]
 
 
+def _gen_register_writes(prog, T, f, table, memo, depth=0):
+    """registers that the code emitted by generator function f (and the generators it calls) may write"""
+    if f.id in memo:
+        return memo[f.id]
+    if "#exc" not in memo:
+        import os
+        from ..core import VERIF
+        memo["#exc"] = json.load(open(os.path.join(VERIF, "tables", "register_clobber_exceptions.json")))
+    if f.name in memo["#exc"]["a_only_generators"]:
+        memo[f.id] = {"a"}
+        return memo[f.id]
+    if f.name in memo["#exc"].get("no_register_generators", {}):
+        memo[f.id] = set()
+        return memo[f.id]
+    memo[f.id] = set("abcd")
+    out = set()
+    for e in T.evs(f).values():
+        if e.kind == "push":
+            out |= set(table.get(e.instr, (set(), set("abcd")))[1]) if e.instr else set("abcd")
+        elif e.kind in ("EXPR", "BLOCK", "STMT"):
+            out |= set("abcd")
+        elif e.kind == "gen" and e.callee is not None:
+            out |= _gen_register_writes(prog, T, e.callee, table, memo, depth + 1) if depth < 6 else set("abcd")
+    memo[f.id] = out
+    return out
+
+
+def _register_terms(prog, T, f, table, entry):
+    """Symbolic values of the VM registers along every emission path of f: yields
+    (event, registers before the event).  Copies move terms, Cast wraps A, PushRegisters /
+    PopRegisters save and restore the four registers, the value stack is a stack of terms."""
+    memo = {}
+    for seq in emit.linear_paths(f.body, T.evs(f)):
+        regs = dict(entry)
+        vstack, frames = [], []
+        for i, e in enumerate(seq):
+            yield e, dict(regs), seq, i
+            if e.kind == "push":
+                ins = e.instr
+                m = re.match(r"^Copy([A-D])To([A-D])$", ins or "")
+                if ins == "PushRegisters":
+                    frames.append(dict(regs))
+                elif ins == "PopRegisters":
+                    regs = frames.pop() if frames else {r: ("unknown",) for r in "abcd"}
+                elif ins == "PushAToValueStack":
+                    vstack.append(regs["a"])
+                elif ins == "PopValueStackIntoA":
+                    regs["a"] = vstack.pop() if vstack else ("unknown",)
+                elif m:
+                    regs[m.group(2).lower()] = regs[m.group(1).lower()]
+                elif ins == "Cast":
+                    regs["a"] = ("Cast", regs["a"])
+                else:
+                    rd, wr = table.get(ins, (set(), set("abcd"))) if ins else (set(), set("abcd"))
+                    val = (ins or "?",) + tuple(regs[r] for r in sorted(rd))
+                    for w in wr:
+                        regs[w] = val
+            elif e.kind == "EXPR":
+                regs["a"] = ("EXPR", e.line)
+                for r in "bcd":
+                    regs[r] = ("after-EXPR", e.line)
+            elif e.kind in ("BLOCK", "STMT"):
+                if not frames:
+                    regs = {r: ("after-user-code", e.line) for r in "abcd"}
+            elif e.kind == "gen" and e.callee is not None:
+                for w in _gen_register_writes(prog, T, e.callee, table, memo):
+                    regs[w] = ("gen", e.callee.name)
+
+
+def _mentions(term, head):
+    if isinstance(term, tuple):
+        return (term and term[0] == head) or any(_mentions(x, head) for x in term[1:])
+    return term == head
+
+
+def r10_for_step_as_evaluated(ctx, T, rule="C02.R10"):
+    """`FOR as the equivalent WHILE ... for run-time-computed steps`: the WHILE spelling computes
+    `counter = counter + step` - one addition of the step as it was evaluated, one conversion of the
+    sum to the counter's type.  A FOR that converts the step first rounds twice (`STEP -1.5` on an
+    INTEGER counter walks by -2).  Followed symbolically through the register moves of the FOR
+    template: the second operand of the increment's Plus is the step register of the template's entry,
+    moved but never passed through Cast; and what the callers put into that register is the evaluated
+    step expression (or the constant of the STEP-less form), again without Cast."""
+    prog = ctx.prog
+    table = c15.register_effects(prog)
+    loops = [f for f, _h, is_for in _loop_emitters(prog, T) if is_for]
+    if not loops:
+        raise CheckError("%s: FOR template not found" % rule)
+    n = 0
+    for f in loops:
+        entry = {"a": ("A@entry",), "b": ("B@entry",), "c": ("C@entry",), "d": ("D@entry",)}
+        construct = common.generator_construct_of(prog, f)
+        seen_plus = False
+        bad = None
+        step_regs = set()
+        for e, regs, seq, i in _register_terms(prog, T, f, table, entry):
+            if e.kind == "push" and e.instr == "Plus" and any(
+                    x.kind == "push" and x.instr == "PopRegisters" for x in seq[:i]):
+                seen_plus = True
+                for r in "abcd":
+                    if _mentions(regs["b"], r.upper() + "@entry"):
+                        step_regs.add(r)
+                if _mentions(regs["b"], "Cast"):
+                    bad = (e, regs["b"])
+        if not seen_plus:
+            raise CheckError("%s: no increment (Plus after PopRegisters) in %s" % (rule, f.name))
+        n += 1
+        ctx.decide(bad is None, rule, "%s:%s:increment-adds-step-as-evaluated" % (rule, construct), f.loc,
+                   "the step reaches the increment through register moves only",
+                   "the FOR template converts the step before adding it (second operand of Plus at line %s is %s): "
+                   "the sum is converted again, so `FOR I%% = 10 TO 1 STEP -1.5` walks by -2 where the equivalent "
+                   "WHILE with `I%% = I%% - 1.5` walks 10 9 8 7 ..." % (bad[0].line if bad else "", bad[1] if bad else ""))
+        # the callers: what they leave in the step register(s)
+        for g in sorted(emit.generator_fns(prog), key=lambda x: x.id):
+            if g.id == f.id or not any(e.kind == "gen" and e.callee is not None and e.callee.id == f.id
+                                       for e in T.evs(g).values()):
+                continue
+            entry_g = {r: (r.upper() + "@caller",) for r in "abcd"}
+            worst = None
+            calls = 0
+            for e, regs, seq, i in _register_terms(prog, T, g, table, entry_g):
+                if e.kind == "gen" and e.callee is not None and e.callee.id == f.id:
+                    calls += 1
+                    for r in step_regs or {"d"}:
+                        if _mentions(regs[r], "Cast"):
+                            worst = (e, regs[r])
+            n += 1
+            ctx.decide(worst is None, rule, "%s:%s:step-register-holds-evaluated-step" % (rule, construct), g.loc,
+                       "the step register holds the step expression's value (or the constant of the STEP-less form)",
+                       "the step is converted before the loop starts (step register at the call in line %s holds %s): "
+                       "FOR with a fractional step on an integer counter no longer behaves like the equivalent "
+                       "WHILE" % (worst[0].line if worst else "", worst[1] if worst else ""))
+    ctx.analysed_units(rule, for_templates=[f.name for f in loops])
+    ctx.require(rule, 2)
+
+
 def run(ctx):
     common.install(ctx)
     T = templates.Templates(ctx.prog)
@@ -489,3 +625,4 @@ def run(ctx):
     c05.r2_mark_after_block(ctx, "C02.R7")
     c15.r8_register_liveness(ctx, "C02.R8")
     r9_statement_lists_are_repetitions(ctx)
+    r10_for_step_as_evaluated(ctx, T)
